@@ -1261,12 +1261,22 @@ class Table:
         manifest (list) raises instead of returning partial/empty results -
         readers must be able to distinguish "empty table" from "broken table".
         """
-        snapshot = self.current_snapshot()
+        # Resolve the snapshot from ONE metadata read. Reading the current
+        # snapshot and then refreshing again to classify "no snapshot" raced
+        # with the table's first commit: the first read saw the empty table, the
+        # second saw the new current_snapshot_id, and the reader raised
+        # "metadata is inconsistent" although nothing was wrong.
+        metadata = self.metadata_manager.refresh()
+        snapshot = None
+        if metadata is not None and metadata.current_snapshot_id is not None:
+            for s in metadata.snapshots:
+                if s.snapshot_id == metadata.current_snapshot_id:
+                    snapshot = s
+                    break
         if not snapshot:
             # An unset current_snapshot_id means "empty table". A SET id that
             # resolves to nothing means the metadata is inconsistent - returning
             # [] there would report a broken table as an empty one (#48).
-            metadata = self.metadata_manager.refresh()
             current_id = metadata.current_snapshot_id if metadata else None
             if current_id is not None and current_id != -1:
                 raise RuntimeError(
